@@ -244,3 +244,33 @@ func callsIn(n ast.Node) []*ast.CallExpr {
 }
 
 func variantsAll() []variants.Params { return variants.All() }
+
+// pkgNorm returns the normal-form enumerator of a generator package (by suffix: "", "ast", "builder", "bootstrap").
+func (c *Ctx) pkgNorm(suffix string) *nctx {
+	if suffix == "ast" {
+		return c.astNorm()
+	}
+	if c.normPkg == nil {
+		c.normPkg = map[string]*nctx{}
+	}
+	if n, ok := c.normPkg[suffix]; ok {
+		return n
+	}
+	g := c.G()
+	pkg := g.Pkg(suffix)
+	var decls []*ast.FuncDecl
+	for i, f := range pkg.Syntax {
+		fn := pkg.CompiledGoFiles[i]
+		if strings.HasSuffix(fn, "/pigeon.go") || strings.HasSuffix(fn, "_test.go") {
+			continue
+		}
+		for _, d := range f.Decls {
+			if fd, ok := d.(*ast.FuncDecl); ok {
+				decls = append(decls, fd)
+			}
+		}
+	}
+	n := newNctx(decls)
+	c.normPkg[suffix] = n
+	return n
+}
